@@ -69,7 +69,9 @@ def check_case(case, impl, model):
 SPLITTY = [b'[1e-5, -1.5E+3, 12.25, -0]', b'"\\ud83d\\ude00\\u00e9\\n"', b'{"a\\u0041":[true,false,null]}', b'[1, /* two */ 2] // x\n',
            b'-Infinity', b'[NaN, Infinity, -Infinity]', b'"\xf0\x9f\x98\x80\xc3\xa9"', b'[123456789012345678901234567890]',
            b'1-2', b'1.+5', b'-1Infinity', b'[1-2]', b'1e5-1', b'"\\ud800\\u0041"', b'"\\ud800x"', b'{"k":-0.0e+0}', b"'a\\'b'",
-           b'nullx', b'TRUE', b'[00,-01,01.5]', b'/**/1', b'"a\x00b"', b'1 2 3', b'{}[]', b'"\\udbff\\udfff"']
+           b'nullx', b'TRUE', b'[00,-01,01.5]', b'/**/1', b'"a\x00b"', b'1 2 3', b'{}[]', b'"\\udbff\\udfff"',
+           b'[1e]', b'[2e-,3E+ ]', b'{"a":1.5e}', b'1e ', b'-0E- ', b'[1e+]', b"{'k':[1,],}", b'[tRuE,NULL]', b'["a\x01b"]',
+           b'[1 /*c*/ , 2 //d\n ]', b'[0e, 00e+]']
 
 
 def split_case(rng, data, cuts, depth, flags):
@@ -104,10 +106,16 @@ def some_text(rng):
 
 def gen(rng, tier):
     ntexts = 260 if tier == "quick" else 4000
-    for _ in range(ntexts):
-        data = some_text(rng)[:48 if tier == "quick" else 200]
-        depth = rng.choice([32, 32, 3, 2])
-        flags = rng.choice(tokgen.FLAGSETS)
+    fixed = [(t + sfx, fl) for t in SPLITTY for sfx in (b"", b" ") for fl in ((0, 1) if tier == "quick" else tokgen.FLAGSETS)]
+    for it in range(len(fixed) + ntexts):
+        if it < len(fixed):
+            # every fixed text, with and without a byte after it, in default and strict mode: every single split
+            data, flags = fixed[it]
+            depth = 32
+        else:
+            data = some_text(rng)[:48 if tier == "quick" else 200]
+            depth = rng.choice([32, 32, 3, 2])
+            flags = rng.choice(tokgen.FLAGSETS)
         n = len(data)
         for k in range(0, n + 1):
             yield split_case(rng, data, [k], depth, flags)
